@@ -12,19 +12,19 @@ import vlib
 LEVEL_TEXT = ('Lean 4 theorems, for all shapes/offsets/data and any number of overlapping fields: Wavefront.intensity is |Wavefront.field|^2 '
               'sample by sample; Wavefront.insert adds weight*intensity and nothing else; Plane.multiply multiplies the embedded field by '
               'amplitude*exp(2 pi i opd/lambda) inside the mask and by 0 outside, for scalar/array amplitude, OPD and mask in every '
-              'combination (explicit Complex.exp for any segment list and for scalar masks); wavelength is handed over unchanged, a Pupil hands over its focal length, the default plane is the identity, '
-              '_mul_pixelscale (regenerated from plane.py on every run) refuses exactly the defined-and-different pairs. The array plumbing '
+              'combination (explicit Complex.exp for any segment list and for scalar masks); wavelength is handed over unchanged, the focal length passes through a plane unchanged when truthy and becomes inf when None/0 (generated Wavefront.__init__ rule), a Pupil hands over its focal length, the default plane is the identity, '
+              '_mul_pixelscale (regenerated from plane.py on every run) refuses exactly the defined-and-different pairs, independently of the unit of length; the phase argument, the metadata hand-over of Plane/Pupil/Image.multiply and the wiring of the three views (which goes through reduce, intensity flag, weight) are regenerated from the source and consumed by the model; insert/intensity always return (C06 reduce_defined). The array plumbing '
               'is a hand model checked against the implementation on exact and floating-point data.')
 LEVEL_NOTE = ('Partial in one respect: fields/segments with exactly one element are excluded by hypothesis (lentil treats every '
               'size-1 array as a broadcastable scalar; open known finding KF-C07-one-pixel-segment). Trusted: Lean kernel, py2lean subset '
               'semantics, NumPy slicing/broadcast/exp semantics as modelled, generator coverage of the correspondence.')
 TECHNIQUE = 'Lean 4 proof (omega/induction/ring) over translator-regenerated kernels + hand model with differential correspondence'
-GEN = ['Extent', 'FieldIdx', 'Helper', 'PlanePx', 'PlaneHandover', 'PlanePhase', 'FieldMerge', 'FieldDispatch', 'FieldAccum']
+GEN = ['Extent', 'FieldDispatch', 'FieldIdx', 'FieldMerge', 'Helper', 'Helper20', 'Hex', 'Mesh', 'PlaneHandover', 'PlanePhase', 'PlanePx', 'PropagateMeta', 'TiltFit', 'Util', 'Window', 'WfViews', 'FieldAccum']
 OPS = ['C07', 'C03']
 RULE = ('cases: chains of 1..4 planes on a fresh wavefront, the class drawn per plane among Plane, Pupil, Image, Tilt, Plane(ptype=pupil) within the '
         'admitted plane types, scalar/array amplitude, OPD and None/scalar/2-D/3-D mask in every combination (segments 1..5, overlapping boxes, '
         'overlapping layers, non-binary mask entries), pixel scales None/equal/different; chains of planes AND propagations (pupil planes -> '
-        'propagate_dft -> image planes / Tilt -> optional second propagation) with field and intensity compared after every element and insert at '
+        'propagate_dft incl. single-sample windows -> image planes / Tilt -> optional second propagation -> optional pupil-type plane; Pupil focal lengths incl. None/0/inf in plain chains) with field and intensity compared after every element and insert at '
         'the end; wavefronts with 1..6 arbitrary overlapping fields; accumulation targets with prior content and weights; all _mul_pixelscale '
         'None-patterns; an extremes stream (physical units 1e-9..1e3, nanometre OPD maps, near-equal float pixel scales; 5 % of quick/thorough, half '
         'of the failing-input search); oracle-only views on shape-() wavefronts, zero-dimensional fields and a single (1,1) field. '
@@ -32,8 +32,7 @@ RULE = ('cases: chains of 1..4 planes on a fresh wavefront, the class drawn per 
 TRUSTED = ['NumPy slicing/broadcasting of amplitude[s]*mask[s]*exp(2 pi i opd[s]/wavelength) and util.boundary (modelled by hand in Model/Plane.lean)',
            'pixel scales are compared for equality only; the model carries them as integers',
            'np.exp(1j*t) = cos t + i sin t (Float model) ; |z**2| = re^2 + im^2 up to rounding']
-UNPROVEN = ['the wiring of Wavefront.field/intensity/insert (which view goes through reduce, how the weight enters) is hand-modelled and pinned, not regenerated',
-            'fields and segment phasors with exactly one element are outside the theorems (known finding KF-C07-one-pixel-segment)',
+UNPROVEN = ['fields and segment phasors with exactly one element are outside the theorems (known finding KF-C07-one-pixel-segment)',
             'chains of planes AND propagations: each step is covered by a theorem (plane: plane_multiply_*; views after any step: intensity_eq_normSq_field, wavefront_insert_weight; '
             'chain of planes: C03 chain_distrib / chain_exp; propagation: C02/C03), the interleaved chain as a whole by correspondence (c03.chain) and oracle only',
             'views on shape-() wavefronts and zero-dimensional / single (1,1) fields: oracle only (the array model has no 0-d data; C06 reduceZ covers the merge)',
@@ -41,8 +40,7 @@ UNPROVEN = ['the wiring of Wavefront.field/intensity/insert (which view goes thr
             'Rotate/Flip.multiply raise AttributeError (open known finding of C08)',
             'the plane-type admission test of Plane.multiply (C08) and tilt bookkeeping (C04) are not part of this model',
             'the constructor\'s mask normalisation (mask != 0, mask=None -> amplitude) is applied by the harness before the model sees the plane (Plane.__init__ is pinned)']
-ASSUMPTIONS = ['focal lengths handed through a plane are truthy (non-zero, not None): Wavefront.__init__ replaces a falsy focal length by inf, so a Pupil with focal_length None/0 followed by a further non-pupil plane ends with inf; the model/theorem hand-over is stated for the value as it is (generated and checked by the oracle, the model comparison of the focal length is skipped for such chains)',
-               'every segment bounding box and every intermediate field that is multiplied by a further plane has more than one element (a propagation window of a single output sample is generated: the views of one-element fields are defined since the repo fix of _merge_shape)',
+ASSUMPTIONS = ['every segment bounding box and every intermediate field that is multiplied by a further plane has more than one element (a propagation window of a single output sample is generated: the views of one-element fields are defined since the repo fix of _merge_shape)',
                'attribute arrays have the shape of the mask (otherwise NumPy raises or broadcasts; malformed input)']
 
 WL_GI = 2.0 ** -20      # k*WL_GI/4 is exact in float64
@@ -766,8 +764,7 @@ def compare(c, io, mo):
         return None if m['px'] == want else f"_mul_pixelscale: impl {io['px']} model {m['px']}"
     mode = c['mode']
     if vlib.bitsf(m['wavelength']) != io['wavelength']: return f"wavelength: impl {io['wavelength']} model {vlib.bitsf(m['wavelength'])}"
-    falsy = any(p['kind'] == 'pupil' and not p['fl'] for p in c.get('planes', []))          # None / 0: see ASSUMPTIONS
-    if not falsy and not _same_fl(vlib.bitsf(m['focal']), io['focal']): return f"focal length: impl {io['focal']} model {vlib.bitsf(m['focal'])}"
+    if not _same_fl(vlib.bitsf(m['focal']), io['focal']): return f"focal length: impl {io['focal']} model {vlib.bitsf(m['focal'])}"
     if (None if io['px'] is None else [rank.get(float(x)) for x in io['px']]) != m['px']: return f"pixelscale: impl {io['px']} model {m['px']}"
     if io['shape'] != m['shape']: return f"shape: impl {io['shape']} model {m['shape']}"
     box = _field_box(io['data'] + [dict(f, shape=f['shape']) for f in m['data']])
